@@ -159,43 +159,81 @@ Qed.
 
 (** * what [json_to_weights] builds *)
 Definition spec_pt (s : wspec) : ptensor :=
-  mkPT (ws_phys s) (length (ws_expand s)) (ws_pshape s) (map (vs_to_axis (ws_pshape s)) (ws_vaxes s)) (ws_default s).
+  mkPT (ws_phys s) (length (ws_expand s)) (ws_pshape s) (map (vs_to_axis (ws_pshape s)) (ws_vaxes_eff s)) (ws_default s).
 
 Lemma mapM_as_nat : forall ex, mapM as_nat (map (fun n => JInt (Z.of_nat n)) ex) = Ok ex.
 Proof. induction ex as [|n ex IH]; [reflexivity|]. cbn [map mapM]. now rewrite as_nat_of_nat, IH. Qed.
 
+Lemma vs_axis_nat : forall m k, vs_axis m (Z.of_nat k) = k.
+Proof. intros m k. unfold vs_axis. assert ((Z.of_nat k <? 0)%Z = false) as -> by (apply Z.ltb_ge; lia). apply Nat2Z.id. Qed.
+
+Lemma paxes_as_map : forall l s,
+  map (fun kn => APhys (fst kn) (snd kn)) (combine (seq s (length l)) l) =
+  map (fun k => APhys k (nth (k - s) l 0)) (seq s (length l)).
+Proof.
+  induction l as [|n l IH]; intro s; [reflexivity|]. cbn [length seq combine map fst snd].
+  rewrite Nat.sub_diag. cbn [nth]. f_equal. rewrite IH. apply map_ext_in. intros k Hk. apply in_seq in Hk.
+  replace (k - s) with (S (k - S s)) by lia. reflexivity.
+Qed.
+
+(** the physical axes, as the axes of the identity specification *)
+Lemma paxes_identity : forall psh,
+  paxes_of psh = map (vs_to_axis psh) (map (fun k => VInt (Z.of_nat k)) (seq 0 (length psh))).
+Proof.
+  intro psh. unfold paxes_of. rewrite (paxes_as_map psh 0), map_map. apply map_ext. intro k.
+  cbn [vs_to_axis]. rewrite vs_axis_nat. now rewrite Nat.sub_0_r.
+Qed.
+
+Lemma expand_parse : forall ex,
+  match Some (JList (map (fun n => JInt (Z.of_nat n)) ex)) with
+  | None | Some JNull | Some (JList []) => Ok []
+  | Some (JList l) => mapM as_nat l
+  | Some _ => Err Unmodelled
+  end = Ok ex.
+Proof.
+  intros [|n ex]; [reflexivity|]. cbn [map]. rewrite <- (mapM_as_nat (n :: ex)). reflexivity.
+Qed.
+
 Lemma json_to_weights_spec : forall s, wf_wspec s = true -> json_to_weights_model (wspec_to_json s) = Ok (spec_pt s).
 Proof.
-  intros s Hwf. unfold wf_wspec in Hwf. unfold spec_pt, ws_pshape in *.
+  intros s Hwf. unfold wf_wspec in Hwf. unfold spec_pt.
+  assert (ws_pshape s = ws_expand s ++ match tens_shape (ws_phys s) with Some sh => sh | None => [] end) as Hps by reflexivity.
   destruct (tens_shape (ws_phys s)) as [shape|] eqn:Es; [|discriminate].
   apply andb_true_iff in Hwf as [Hr _]. rewrite forallb_forall in Hr.
-  unfold wspec_to_json.
-  change (json_to_weights_model _) with
-    (do t <- parse_tens (tens_to_json (ws_phys s));
-     do shape <- match tens_shape t with Some s => Ok s | None => Err ValueErr end;
-     do ex <- match Some (JList (map (fun n => JInt (Z.of_nat n)) (ws_expand s))) with
-              | None | Some JNull | Some (JList []) => Ok []
-              | Some (JList l) => mapM as_nat l
-              | Some _ => Err Unmodelled
-              end;
-     let pshape := ex ++ shape in
-     let paxes := map (fun kn => APhys (fst kn) (snd kn)) (combine (seq 0 (length pshape)) pshape) in
-     do lv <- jiter (JList (map vspec_to_json (ws_vaxes s)));
-     do vaxes <- mapM (json_to_axis paxes) lv;
-     do default <- as_num (JNum (ws_default s));
-     Ok (mkPT t (length ex) pshape vaxes default)).
-  rewrite parse_tens_to_json. cbn [bind]. rewrite Es. cbn [bind].
-  assert (match Some (JList (map (fun n => JInt (Z.of_nat n)) (ws_expand s))) with
-          | None | Some JNull | Some (JList []) => Ok []
-          | Some (JList l) => mapM as_nat l
-          | Some _ => Err Unmodelled
-          end = Ok (ws_expand s)) as ->.
-  { destruct (ws_expand s) as [|n ex] eqn:Ex; [reflexivity|]. rewrite <- Ex. cbn [map].
-    rewrite Ex. cbn [map]. rewrite <- (mapM_as_nat (n :: ex)). reflexivity. }
-  cbn [bind jiter]. fold (paxes_of (ws_expand s ++ shape)).
-  rewrite mapM_map, (mapM_ok_map _ (vs_to_axis (ws_expand s ++ shape))).
-  - reflexivity.
-  - intros v Hv. apply json_to_axis_vspec. now apply Hr.
+  unfold wspec_to_json, ws_vaxes_eff in *. destruct (ws_vaxes s) as [l|] eqn:Ev.
+  - change (json_to_weights_model _) with
+      (do t <- parse_tens (tens_to_json (ws_phys s));
+       do shape <- match tens_shape t with Some s => Ok s | None => Err ValueErr end;
+       do ex <- match Some (JList (map (fun n => JInt (Z.of_nat n)) (ws_expand s))) with
+                | None | Some JNull | Some (JList []) => Ok []
+                | Some (JList l) => mapM as_nat l
+                | Some _ => Err Unmodelled
+                end;
+       let pshape := ex ++ shape in
+       let paxes := map (fun kn => APhys (fst kn) (snd kn)) (combine (seq 0 (length pshape)) pshape) in
+       do vaxes <- (do lv <- jiter (JList (map vspec_to_json l)); mapM (json_to_axis paxes) lv);
+       do default <- as_num (JNum (ws_default s));
+       Ok (mkPT t (length ex) pshape vaxes default)).
+    rewrite parse_tens_to_json. cbn [bind]. rewrite Es. cbn [bind]. rewrite expand_parse.
+    cbn [bind jiter]. rewrite <- Hps. fold (paxes_of (ws_pshape s)).
+    rewrite mapM_map, (mapM_ok_map _ (vs_to_axis (ws_pshape s))).
+    + reflexivity.
+    + intros v Hv. apply json_to_axis_vspec. now apply Hr.
+  - change (json_to_weights_model _) with
+      (do t <- parse_tens (tens_to_json (ws_phys s));
+       do shape <- match tens_shape t with Some s => Ok s | None => Err ValueErr end;
+       do ex <- match Some (JList (map (fun n => JInt (Z.of_nat n)) (ws_expand s))) with
+                | None | Some JNull | Some (JList []) => Ok []
+                | Some (JList l) => mapM as_nat l
+                | Some _ => Err Unmodelled
+                end;
+       let pshape := ex ++ shape in
+       let paxes := map (fun kn => APhys (fst kn) (snd kn)) (combine (seq 0 (length pshape)) pshape) in
+       do vaxes <- Ok paxes;
+       do default <- as_num (JNum (ws_default s));
+       Ok (mkPT t (length ex) pshape vaxes default)).
+    rewrite parse_tens_to_json. cbn [bind]. rewrite Es. cbn [bind]. rewrite expand_parse.
+    cbn [bind]. rewrite <- Hps. fold (paxes_of (ws_pshape s)). now rewrite paxes_identity.
 Qed.
 
 (** * [productAxis] *)
